@@ -108,6 +108,8 @@ type AllocatorManager struct {
 		// The max suffix sign we have so far, it will be used to calculate
 		// the number of suffix bits we need in the TSO logical part.
 		maxSuffix int32
+		// checked is set once a dc-location check has completed: only then an empty map means "no dc-locations".
+		checked bool
 	}
 	wg sync.WaitGroup
 	// for election use
@@ -251,6 +253,13 @@ func (am *AllocatorManager) GetClusterDCLocations() map[string]DCLocationInfo {
 		dcLocationMap[dcLocation] = info.clone()
 	}
 	return dcLocationMap
+}
+
+// dcLocationsLoaded tells whether a dc-location check has completed on this server.
+func (am *AllocatorManager) dcLocationsLoaded() bool {
+	am.mu.RLock()
+	defer am.mu.RUnlock()
+	return am.mu.checked
 }
 
 // GetClusterDCLocationsNumber returns the number of cluster dc-locations.
@@ -690,6 +699,7 @@ func (am *AllocatorManager) ClusterDCLocationChecker() {
 			am.mu.maxSuffix = maxSuffix
 		}
 	}
+	am.mu.checked = true
 	am.mu.Unlock()
 }
 
